@@ -121,7 +121,7 @@ asn1cnst_range_t *
 asn1constraint_default_alphabet(asn1p_expr_type_e expr_type) {
 	DECL_notOPV(octstr,	0x00, 0xff);	/* Not OER- and PER-visible */
 	DECL_notOPV(utf8,	0x00, 0x7fffffff);	/* Not OER- and PER-visible */
-	DECL(bmp,	0x00, 65533);	/* 64K-2 cells */
+	DECL(bmp,	0x00, 65535);	/* 64K cells */
 	DECL(uint7,	0x00, 0x7f);
 	DECL(uint32,	0x00, 0xffffffff);
 	DECL(Space,	0x20, 0x20);
